@@ -54,6 +54,21 @@ def run(out, tier, seed, pid):
                                    'ids': {'s': [], 'g': [], 'l': []}})
             singles.append(t)
     if pid == 'C07':
+        # "with no MSA nothing is cropped": no MSA requested per call while the global dictionary holds one
+        import random as _r
+        from .. import randscenes as _rs
+        extra = []
+        for i in range(60 if tier == 'quick' else 1000):
+            rng = _r.Random(f'C07nomsa:{seed}:{i}')
+            d = _rs.rand_scene(rng, 'tiny', name=f'nomsa:{seed}:{i}')
+            d['prms']['MSA'] = None
+            d['gprms'] = {'MSA': rng.choice([0, 500, 1000, 3000]), 'MSA_HIT_BUFFER': rng.choice([0, 1500])}
+            d['nomsa'] = True
+            extra.append(d)
+        etr, _ = fw.run_scenarios(extra)
+        for t in etr:
+            t['tid'] = len(singles) + 1
+            singles.append(t)
         fw.judge_traces(out, singles, plan['prefix'])
     rel = set(plan['marks'])
     sigs = set()
